@@ -319,18 +319,14 @@ impl WmoWriter {
         &self,
         writer: &mut W,
         materials: &[WmoMaterial],
-        target_version: WmoVersion,
+        _target_version: WmoVersion,
     ) -> Result<()> {
         if materials.is_empty() {
             return Ok(());
         }
 
-        // Determine material size based on version
-        let material_size = if target_version >= WmoVersion::Mop {
-            64
-        } else {
-            40
-        };
+        // SMOMaterial is 64 bytes in every supported version (36 bytes of fields + 28 written below)
+        let material_size = 64;
 
         let header = ChunkHeader {
             id: chunks::MOMT,
